@@ -1,4 +1,12 @@
-"""rob-A -- refactoring-robust *normal form* of a function (used by C23..C27).
+"""rob-G2 -- copy of rob-A's refactoring-robust *normal form* of a function (_helpers_rob_a.py, copied so that C47/C48/C49
+do not depend on a file another agent is still changing), extended for C47..C49:
+* a private method called on ANOTHER object (`state._hold(obj)`, receiver a parameter / local) is inlined when exactly
+  one class of the package defines a method of that name (`foreign=True`);
+* `calls_of_name` / `owners_through_helpers`: who-may-write through extracted helpers, any receiver;
+* `closure_consts`, `expand`, `single_defs`: single-assignment local / closure-constant resolution on expressions.
+
+Original description (rob-A):
+refactoring-robust *normal form* of a function.
 
 Behaviour-preserving refactorings (extracted helper, local alias / snapshot, boolean flag local) change the
 syntax a rule matches on without changing what the code does.  Instead of teaching every rule every spelling,
@@ -231,6 +239,20 @@ class _Inliner:
         self.counter = 0
         self.inlined: List[str] = []      # keys of the callees that were inlined
         self.names: Set[str] = set()
+        self.foreign = False
+        self._named: Dict[str, List[FuncInfo]] = {}
+
+    def _defs_named(self, name: str) -> List[FuncInfo]:
+        if name not in self._named:
+            out = []
+            for m in self.ix.all_modules():
+                if name not in m.source:
+                    continue
+                for f in self.ix.all_functions(m):
+                    if f.name == name and not f.type_only and not f.is_overload and getattr(f, "parent_func", None) is None:
+                        out.append(f)
+            self._named[name] = out
+        return self._named[name]
 
     # -- which function does this call run?
     def target(self, call: ast.Call, module, stack) -> Optional[Tuple[FuncInfo, Optional[ast.expr]]]:
@@ -241,7 +263,7 @@ class _Inliner:
             return None
         if any(isinstance(a, ast.Starred) for a in call.args) or any(k.arg is None for k in call.keywords):
             return None
-        t, recv = None, None
+        t, recv, foreign = None, None, False
         cls = self.f.cls
         if isinstance(fn, ast.Attribute) and isinstance(fn.value, ast.Name) and fn.value.id in ("self", "cls") and cls is not None:
             first = self.f.params[0] if self.f.params else None
@@ -255,6 +277,17 @@ class _Inliner:
                 if name in sub_.methods:
                     return None
             recv = fn.value
+        elif isinstance(fn, ast.Attribute) and isinstance(fn.value, ast.Name) and self.foreign and name.startswith("_") \
+                and not name.endswith("__") and fn.value.id not in ("self", "cls"):
+            # rob-G2: private method of another object (receiver = parameter / local); unique definition only
+            cands = self._defs_named(name)
+            if len(cands) != 1 or cands[0].cls is None:
+                return None
+            t = cands[0]
+            if any(d.split(".")[-1] in ("staticmethod", "classmethod", "property") for d in t.decorators):
+                return None
+            recv = fn.value
+            foreign = True
         elif isinstance(fn, ast.Name):
             r = self.ix.resolve(module, name)
             if isinstance(r, FuncInfo) and r.cls is None and r.parent_func is None:
@@ -287,7 +320,7 @@ class _Inliner:
                 return None
             if "classmethod" in decos and recv.id == "self":
                 recv = ast.Call(func=ast.Name(id="type", ctx=ast.Load()), args=[ast.Name(id="self", ctx=ast.Load())], keywords=[])
-            elif "classmethod" not in decos and recv.id != "self":
+            elif "classmethod" not in decos and recv.id != "self" and not foreign:
                 return None
         return t, recv
 
@@ -617,18 +650,6 @@ def resolve_aliases(node, params: Sequence[str], kinds: str = "all", rounds: int
         stores: List[Tuple[str, List[int]]] = []
         for d, tnode, st in attr_stores(node):
             stores.append((d, stmt_nodes.get(id(st), [])))
-        # a method call on an object may change the attributes of that object: `was = self._t.is_active` is a
-        # snapshot once `self._t.close()` ran (receivers of two components or more; `self.m()` alone is not taken
-        # to invalidate every `self.x` alias -- see the module docstring)
-        for x in walk_local(node):
-            if isinstance(x, ast.Call) and isinstance(x.func, ast.Attribute):
-                recv = dotted(x.func.value)
-                if recv and "()" not in recv and "." in recv:
-                    cur = x
-                    while cur is not None and id(cur) not in stmt_nodes:
-                        cur = pm0.get(cur)
-                    if cur is not None:
-                        stores.append((recv + ".*", stmt_nodes[id(cur)]))
         for x in walk_local(node):
             if isinstance(x, ast.Name) and isinstance(x.ctx, (ast.Store, ast.Del)):
                 cur = x
@@ -662,10 +683,7 @@ def resolve_aliases(node, params: Sequence[str], kinds: str = "all", rounds: int
             for n in dn:
                 after_def |= reach(n)
             for d, sn in stores:
-                if d.endswith(".*"):
-                    if not any(r.startswith(d[:-1]) for r in reads):
-                        continue
-                elif d == nm or not any(r == d or r.startswith(d + ".") for r in reads):
+                if d == nm or not any(r == d or r.startswith(d + ".") for r in reads):
                     continue
                 for s in sn:
                     if s in dn:
@@ -732,11 +750,11 @@ class NormalForm(FuncInfo):
 
 
 def normal_form(ctx, f: FuncInfo, keep: Iterable[str] = (), inline: bool = True, alias: Optional[str] = "all",
-                depth: int = MAX_DEPTH, volatile: Iterable[str] = (), temps: bool = False) -> NormalForm:
+                depth: int = MAX_DEPTH, volatile: Iterable[str] = (), temps: bool = False, foreign: bool = True) -> NormalForm:
     """Normal form of `f` (cached per ctx).  keep: callee names the rule matches by name (never inlined);
     alias: None | "dotted" (only `x = a.b.c` locals) | "all" (also comparisons / boolean combinations)."""
-    cache = ctx.__dict__.setdefault("_rob_a_nf", {})
-    k = (f.key, id(f.node), tuple(sorted(set(keep))), inline, alias, depth, tuple(sorted(set(volatile))), temps)
+    cache = ctx.__dict__.setdefault("_rob_g2_nf", {})
+    k = (f.key, id(f.node), tuple(sorted(set(keep))), inline, alias, depth, tuple(sorted(set(volatile))), temps, foreign)
     hit = cache.get(k)
     if hit is not None:
         return hit
@@ -747,6 +765,7 @@ def normal_form(ctx, f: FuncInfo, keep: Iterable[str] = (), inline: bool = True,
     inlined: List[str] = []
     if inline:
         inl = _Inliner(ctx, f, keep, depth)
+        inl.foreign = foreign
         inl.run(new)
         inlined = inl.inlined
     n_alias = 0
@@ -850,3 +869,124 @@ def fin_quiet(g):
     def ok(a, b, lab):
         return not (a in s and lab == "exc")
     return ok
+
+
+# ====================================================================== rob-G2 additions
+def _owner_key(m, node: ast.AST) -> str:
+    """`relpath::Class.method` of the outermost function containing `node` (copy of _helpers_rules_c.owner_key)."""
+    pm = m.parents()
+    chain_ = []
+    cur = pm.get(node)
+    while cur is not None:
+        if isinstance(cur, (ast.FunctionDef, ast.AsyncFunctionDef, ast.ClassDef)):
+            chain_.append(cur)
+        cur = pm.get(cur)
+    chain_.reverse()
+    names = []
+    for c in chain_:
+        names.append(c.name)
+        if isinstance(c, (ast.FunctionDef, ast.AsyncFunctionDef)):
+            break
+    return f"{m.relpath}::{'.'.join(names) if names else '<module>'}"
+
+
+def calls_of_name(ix, name: str) -> Optional[List[Tuple[str, object, ast.Call]]]:
+    """[(owner key, module, call)] of every call `<anything>.name(...)` / `name(...)` in the package -- an
+    over-approximation of the callers of a private helper called `name`.  None when `name` also occurs as a value
+    (`callback=self._helper`, `getattr`-free but passed around): its callers cannot be enumerated then."""
+    out = []
+    for m in ix.all_modules():
+        if name not in m.source:
+            continue
+        call_funcs = set()
+        for n in ast.walk(m.tree):
+            if isinstance(n, ast.Call):
+                fn = n.func
+                if (isinstance(fn, ast.Attribute) and fn.attr == name) or (isinstance(fn, ast.Name) and fn.id == name):
+                    call_funcs.add(id(fn))
+                    out.append((_owner_key(m, n), m, n))
+        for n in ast.walk(m.tree):
+            if id(n) in call_funcs:
+                continue
+            if (isinstance(n, ast.Attribute) and n.attr == name and isinstance(n.ctx, ast.Load)) or \
+                    (isinstance(n, ast.Name) and n.id == name and isinstance(n.ctx, ast.Load)):
+                return None
+    return out
+
+
+def owners_through_helpers(ix, fkey: str, allowed: Iterable[str], depth: int = 2) -> Optional[List[str]]:
+    """T-OWN through extracted helpers: `fkey` may perform an owned action when it is a listed owner, or a private
+    function / method ALL of whose call sites (by name, any receiver) lie in functions that may (transitively).
+    Answers the listed owners it acts for, else None."""
+    allowed = set(allowed)
+    if fkey in allowed:
+        return [fkey]
+    name = fkey.split("::", 1)[1].split(".")[-1]
+    if depth <= 0 or not name.startswith("_") or name.endswith("__"):
+        return None
+    sites = calls_of_name(ix, name)
+    if not sites:
+        return None
+    out: List[str] = []
+    for ok, m, c in sites:
+        if ok == fkey:
+            continue
+        r = owners_through_helpers(ix, ok, allowed, depth - 1)
+        if r is None:
+            return None
+        out.extend(r)
+    return sorted(set(out)) or None
+
+
+def single_defs(fnode) -> Dict[str, ast.expr]:
+    """{local: value} for locals of fnode (nested scopes excluded; not parameters, loop / with / except targets) bound
+    by exactly one plain `name = <value>`."""
+    from ..astutil import name_stores
+    cnt: Dict[str, int] = {}
+    val: Dict[str, Optional[ast.AST]] = {}
+    for n, v, st in name_stores(fnode):
+        cnt[n] = cnt.get(n, 0) + 1
+        ok = isinstance(st, ast.AnnAssign) or (isinstance(st, ast.Assign) and len(st.targets) == 1 and isinstance(st.targets[0], ast.Name))
+        val[n] = v if ok and v is not None else None
+    a = fnode.args
+    ps = {x.arg for x in a.posonlyargs + a.args + a.kwonlyargs} | ({a.vararg.arg} if a.vararg else set()) | ({a.kwarg.arg} if a.kwarg else set())
+    return {n: v for n, v in val.items() if v is not None and cnt[n] == 1 and n not in ps}
+
+
+class _NameSubst(ast.NodeTransformer):
+    def __init__(self, mapping):
+        self.mapping = mapping
+
+    def visit_Name(self, node):
+        if isinstance(node.ctx, ast.Load) and node.id in self.mapping:
+            return copy.deepcopy(self.mapping[node.id])
+        return node
+
+
+def expand(expr: ast.AST, defs: Dict[str, ast.expr], depth: int = 4) -> ast.AST:
+    """`expr` (fresh copy) with the names of `defs` replaced, repeatedly, by the expressions they stand for."""
+    expr = copy.deepcopy(expr)
+    for _ in range(depth):
+        names = {n.id for n in ast.walk(expr) if isinstance(n, ast.Name) and isinstance(n.ctx, ast.Load)}
+        if not (names & set(defs)):
+            break
+        expr = _NameSubst(defs).visit(expr)
+    return ast.fix_missing_locations(expr)
+
+
+def resolve_name(expr: ast.AST, defs: Dict[str, ast.expr], depth: int = 4) -> ast.AST:
+    while depth > 0 and isinstance(expr, ast.Name) and expr.id in defs:
+        expr = defs[expr.id]
+        depth -= 1
+    return expr
+
+
+def closure_consts(outer_fn, inner_fn=None) -> Dict[str, ast.expr]:
+    """Single-assignment locals of `outer_fn` bound to a constant, that `inner_fn` (a closure of it) does not rebind:
+    what a free variable of the closure stands for."""
+    defs = {n: v for n, v in single_defs(outer_fn).items() if isinstance(v, ast.Constant)}
+    if inner_fn is not None:
+        a = inner_fn.args
+        shadow = {x.arg for x in a.posonlyargs + a.args + a.kwonlyargs} | _stored_names([inner_fn])
+        defs = {n: v for n, v in defs.items() if n not in shadow}
+    return defs
